@@ -223,6 +223,20 @@ def copy_direction(ct, rep, rule="copy-direction"):
                         rep.fail(rule, ct.mod.path.name, fq, c, f"copy direction is {norm(src) if src is not None else None} -> {norm(dst) if dst is not None else None}; expected self.file_path -> the new path")
     if not n:
         raise AnalysisError(f"{fq}: no shutil copy call (anchor vanished)")
+    # byte-identical: after the copy call nothing writes into either file (no handle opened for writing, no codec write)
+    for c in walk_no_nested(f.node):
+        if not isinstance(c, ast.Call):
+            continue
+        mode = None
+        if isinstance(c.func, ast.Attribute) and c.func.attr == "open":
+            mode = c.args[0] if c.args else next((k.value for k in c.keywords if k.arg == "mode"), None)
+        elif norm(c.func) == "open":
+            mode = c.args[1] if len(c.args) > 1 else next((k.value for k in c.keywords if k.arg == "mode"), None)
+        if mode is not None and not (isinstance(mode, ast.Constant) and isinstance(mode.value, str) and not (set(mode.value) & set("wax+"))):
+            rep.fail(rule, ct.mod.path.name, fq, c, f"`{norm(c)[:60]}` opens a file for writing inside copy(): the copy (or the source) is changed after it was copied, so the two are not byte-identical",
+                     construct=f"{fq} opens {norm(mode)}")
+        if isinstance(c.func, ast.Attribute) and c.func.attr in ("write", "bwrite", "_write", "bpad", "truncate", "write_bytes", "write_text"):
+            rep.fail(rule, ct.mod.path.name, fq, c, f"`{norm(c)[:60]}` writes into a file inside copy(): not a byte-identical copy", construct=f"{fq} writes")
     leaves = return_leaves(f.node)
     rets = [s for s in walk_no_nested(f.node) if isinstance(s, ast.Return)]
 
@@ -264,6 +278,23 @@ def new_layout(ct, cd, rep, rule="new-layout"):
     m.match(HEADER, normalise(hu.wterms, "w"))
     M.initial_layout(ct, rep, rule=rule)
     M.unused_size_zero(ct, rep, rule=rule + "/unused-size-zero")
+    # the file exists from the first byte on: nothing written after that may be refused, or a stub is left at the target (and every
+    # retry gets FileExistsError) - the texts of the empty slots are literals that fit their field
+    from ..layout import Str
+    for t in [t for t in walk_terms(hu.wterms) if isinstance(t, Str)]:
+        v = t.value
+        w_ = ct.prog.const_int(ct.mod, t.width)
+        fits = isinstance(v, ast.Constant) and isinstance(v.value, str) and w_ is not None and len(v.value) < w_
+        if fits:
+            try:
+                v.value.encode("cp1252")
+            except UnicodeEncodeError:
+                fits = False
+        if fits:
+            rep.ok(rule, f"Tdf.new: slot text {v.value!r} is a literal that fits its {w_}-byte field")
+        else:
+            rep.fail(rule, ct.mod.path.name, "Tdf.new", t.stmt or t.node, f"a new container writes the text `{norm(v)[:50]}` into a {w_}-byte field after the file was created: "
+                     "when that text does not fit or is not cp1252 the writer raises and leaves a stub at the target", construct="Tdf.new variable slot text")
     vals = [t for t in walk_terms(hu.wterms) if isinstance(t, Field) and t.role == "data"][:2]
     for t, (nm, want) in zip(vals, (("version", 1), ("nEntries", 14))):
         got = ct.prog.const_int(ct.mod, t.value)
